@@ -93,6 +93,9 @@ def scenario(sh: Shard, seed, idx, regime):
                 await asyncio.sleep(d)
 
         cancel_after = r.choice([None, None, None, 0.0, 0.05, 0.3, 1.2, 3.9, 4.05]) if idx % 4 == 3 else None
+        cancel_at_step = None
+        if idx % 8 == 7:
+            cancel_after, cancel_at_step = 0.0, r.randrange(0, 160)
         well_behaved = all(x.script["answer_from"] == 1 and x.script["loss"] == 0 and x.script["latency"][1] <= 0.4 for x in resp)
         rerun = bool(resp) and well_behaved and idx % 4 != 3
 
@@ -114,7 +117,16 @@ def scenario(sh: Shard, seed, idx, regime):
                     # the caller gives up (manager exit, wait_for): discovery is cancelled part way
                     task = asyncio.ensure_future(loc.discover())
                     task.add_done_callback(lambda t: out.setdefault("t_done", w.now))
-                    await asyncio.sleep(cancel_after)
+                    if cancel_at_step is not None:
+                        # cancelled right after the k-th callback scheduled since discovery started
+                        gate = w.loop.create_future()
+                        w.loop.step_target = w.loop.steps_scheduled + cancel_at_step
+                        w.loop.step_hook = lambda: (not gate.done()) and gate.set_result(True)
+                        await asyncio.wait({gate, task}, return_when=asyncio.FIRST_COMPLETED)
+                        w.loop.step_hook = None
+                        sh.count("discoveries_cancelled_at_a_scheduler_step")
+                    else:
+                        await asyncio.sleep(cancel_after)
                     out["cancelled"] = not task.done()
                     task.cancel()
                     try:
